@@ -6,7 +6,9 @@ MODS = ["Act", "F", "ModF", "P", "ModP"]
 OPNAME = {0: "is_bus_day", 1: "is_settlement", 2: "is_weekday", 3: "is_holiday", 10: "roll", 11: "add_bus_days",
           12: "lag", 13: "add_days", 14: "add_months", 15: "bus_date_range", 20: "==", 21: "construct",
           30: "is_bus_day/is_settlement over a date range", 31: "roll (5 modifiers x 2 flags) over a date range",
-          32: "add_bus_days/lag/add_days over the whole i8 range"}
+          32: "add_bus_days/lag/add_days over the whole i8 range",
+          41: "add_bus_days from a datetime with a time of day", 42: "lag from a datetime with a time of day",
+          43: "add_days from a datetime with a time of day"}
 
 
 def singles_of(enc, op, args):
@@ -48,6 +50,10 @@ def describe(enc, op, args):
         return "roll(%s, %s, settlement=%s)" % (calgen.fmt_date(a[0]), MODS[a[1]], bool(a[2]))
     if op in (11, 12):
         return "%s(%s, %d, settlement=%s)" % (OPNAME[op], calgen.fmt_date(a[0]), a[1], bool(a[2]))
+    if op in (41, 42):
+        return "%s(%s + %ds, %d, settlement=%s)" % ({41: "add_bus_days", 42: "lag"}[op], calgen.fmt_date(a[0]), a[3], a[1], bool(a[2]))
+    if op == 43:
+        return "add_days(%s + %ds, %d, %s, settlement=%s)" % (calgen.fmt_date(a[0]), a[4], a[1], MODS[a[2]], bool(a[3]))
     if op == 13:
         return "add_days(%s, %d, %s, settlement=%s)" % (calgen.fmt_date(a[0]), a[1], MODS[a[2]], bool(a[3]))
     if op == 14:
